@@ -119,11 +119,16 @@ func directivesSeq2(s string) iter.Seq2[string, string] {
 func parseDirectives(s string) map[string]string {
 	m := make(map[string]string)
 	for key, value := range directivesSeq2(s) {
-		// A directive given twice: the later occurrence is used, except that an
-		// unqualified no-cache (the stricter form) is never relaxed by a
-		// qualified one: 'no-cache, no-cache="f"' still demands validation,
-		// and two qualified ones name the fields of both lists.
-		if prev, dup := m[key]; dup && key == "no-cache" {
+		// A directive given twice: the first occurrence is used (RFC 9111
+		// §4.2.1: "either the first occurrence should be used or the response
+		// should be considered stale"), so that a later 'max-age=31536000'
+		// cannot extend a 'max-age=0'. no-cache is the exception: an unqualified
+		// one (the stricter form) is never relaxed by a qualified one, wherever
+		// it stands, and two qualified ones name the fields of both lists.
+		if prev, dup := m[key]; dup {
+			if key != "no-cache" {
+				continue
+			}
 			prevFields := ParseQuotedString(prev)
 			if prevFields == "" {
 				continue
